@@ -202,7 +202,20 @@ def header_payload_cursor(ctx, rule, key_prefix, hdr):
             while r[0] == "proj":
                 r = r[1]
             okr = okr and r[0] == "binop" and r[1].startswith("Add") and expr.fold(r[2], consts, lambda v: 5 if (v[0] == "param" and v[2] in ((".len",),)) else 2 if (v[0] == "param" and v[2] in ((".pos",),)) else None) == 3
-        ctx.check(okr, rule, rm.key, "remaining() = (len - pos) + payload", "remaining() = %s" % [pa.vfmt(p.ret)[:80] for p in rps], "")
+            # .. and the payload part is the payload's own remaining() (all of its chunks), asked directly or inside the closure handed to map_or
+            if okr:
+                pay = r[3]
+                direct = expr.mentions(pay, lambda v: v[0] == "call" and pa.short(v[1]) == "remaining") and \
+                    not expr.mentions(pay, lambda v: v[0] == "call" and pa.short(v[1]) in ("chunk", "len"))
+                cls_ = [v[1] for v in pa.subvalues(pay) if v[0] == "closure"]
+                viacl = any(any(True for c_ in prog.by_key.get(ck, []) for _ in c_.calls("remaining")) for ck in cls_) and \
+                    not any(any(True for c_ in prog.by_key.get(ck, []) for _ in c_.calls("chunk", "::len")) for ck in cls_)
+                nopay = expr.fold(pay, consts) == 0 and any(t[3][0] == "discr" and t[2] == "None" for t in p.tests)       # (written as a match: no payload)
+                okr = direct or viacl or nopay
+        ctx.check(okr, rule, rm.key, "remaining() = (len - pos) + payload.remaining()",
+                  "remaining() = %s: it must be the unsent part of the header plus ALL that is left of the payload (a payload made of several chunks "
+                  "is otherwise cut short by a transport that sizes its write from remaining(), and the frame's declared length is not met)"
+                  % [pa.vfmt(p.ret)[:80] for p in rps], "")
 
 
 def frame_type_table(ctx, rule):
